@@ -128,6 +128,8 @@ def main():
                 note = note + INPROC_NOTE
             if p == "C10":
                 note = note + INPROC_NOTE
+            if p in ("C01", "C05", "C08", "C12", "C15"):
+                text = text + " This check is cheap (seconds): the quick tier runs the thorough tier's cases as well."
             m["checks"].append({
               "property_id": p, "quick_cmd": "./vc %s quick" % p, "thorough_cmd": "./vc %s thorough" % p,
               "evidence_file": "evidence/%s.json" % p, "replay_cmd_template": "./vc replay {path}", "engine": "vcheck",
